@@ -10,7 +10,9 @@ Require Import Model.SsaCheck Model.DegGraph Model.DegWf Spec.SsaDomSpec Spec.De
 Require Import Proofs.DegGraphIdom Proofs.DegGraphTableFree Proofs.DegRunProofs Proofs.DegSemTotal Proofs.DegSemVariant.
 Require Proofs.MirrorsDom Proofs.CtlBridge Proofs.CtlBridgeExample.
 Require Model.Ssa Model.SsaPre Model.LiftFull Proofs.CtlChain Proofs.CtlChainExample.
-Require Import Proofs.DegRunBranch.
+Require Import Proofs.DegRunBranch Proofs.DegRunDecided.
+Require Import Model.DegJustifyLe Proofs.DegGraphLe.
+Require Proofs.CtlChainRuns Proofs.CtlChainRunsExample.
 Import ListNotations.
 Local Open Scope Z_scope.
 
@@ -118,7 +120,12 @@ Print Assumptions C07_inf_bound_sound.
          ASSUMED of the family there ([picks_decided]): two runs that enter a block with
          different arriving arguments enter a join and differ on the value of a condition
          [decides] names, in the stores with which they enter it - the control-dependence
-         assumption in concrete terms.
+         assumption in concrete terms.  C07_picks_decided_in_validated_loop_free_graphs
+         DERIVES it for graphs that pass C14's SSA validator (SsaCheck.infos_ok), have the
+         lists of a lifted skeleton, are consistent and come with their true table; so
+         C07_loop_free_runs_represented / C07_loop_free_runs_claims_true assume NOTHING of
+         the family but that its runs start at the entry block: for such graphs every
+         claim is true of  valuation |-> concrete value  whatever way the valuations go.
      (4) C07_undenotable_means_not_yet_assigned, C07_undenotable_unconstrained_variant_refuted
          - "a deciding condition without denotation does not vary" is an over-approximation
          on stores that start total (a condition is undenotable only while it reads a local
@@ -126,13 +133,8 @@ Print Assumptions C07_inf_bound_sound.
          the choice unconstrained" is unsound for a relation without program counter.
 
    NOT PROVED - OPEN (reported under coverage.open_statements by the check):
-     (a) families of concrete runs whose paths DIFFER: proved for loop-free graphs under
-         the assumption [picks_decided] (3').  OPEN: (i) [picks_decided] itself - its graph
-         half is C07_lifted_split_is_named_by_decides (the block where two runs part is
-         named by [decides]); that SSA form makes the arriving argument a function of the
-         incoming edge, and that the parting block's condition still has the value it
-         branched on in the store with which the join is entered, are not proved;
-         (ii) graphs WITH LOOPS whose runs differ inside the loop bodies but enter the loop
+     (a) families of concrete runs whose paths DIFFER: PROVED for loop-free graphs (3').
+         OPEN: graphs WITH LOOPS whose runs differ inside the loop bodies but enter the loop
          headers in the same sequence: the schedule of (3') overwrites a cell on its next
          iteration for valuations that skip the assignment then, which is harmless only
          because SSA form never lets them read it again (needs C14's "every read names the
@@ -143,10 +145,10 @@ Print Assumptions C07_inf_bound_sound.
          because the header phis are then judged with a non-constant deciding condition
          (the loop condition ends the header block, which is on the dominator chain of the
          back edge) and get upper end NonQuadratic, and everything computed from them
-         inherits it.  The check's oracle judges such programs per iteration context: a
-         claim is compared on the runs that reach the node after the same sequence of
-         loop-header entries (evidence key degree_oracle; contexts reached by too few runs
-         are counted as discarded_signal_dependent_paths).
+         inherits it.  The check's oracle judges such programs per iteration context (the
+         stack of enclosing loops with their iteration numbers): a claim is compared on the
+         runs that reach the node in the same context (evidence key degree_oracle; contexts
+         reached by too few runs are counted as discarded_signal_dependent_paths).
      (b) that [decides] names EVERY block whose decision can change the incoming edge is
          PROVED for an IR graph that has, block by block, the predecessor and successor lists
          of a lifted skeleton (C07_lifted_split_is_named_by_decides, from
@@ -324,6 +326,193 @@ Theorem C07_diverging_runs_claims_true :
   forall i, SemDeg V line p (snd r) (fun rho => val rho i).
 Proof. exact diverging_runs_claims_true. Qed.
 Print Assumptions C07_diverging_runs_claims_true.
+
+(* THE ASSUMPTION DERIVED.  For a graph c that passes the SSA validator of C14 (infos_ok: the
+   entry and exit version maps of every block, checked along every edge), is consistent,
+   comes with its true table and has the predecessor / successor lists of a lifted skeleton:
+   two runs from the entry block that enter a block with different arriving phi arguments
+   entered it along different edges (the arriving version is the exit map of the
+   predecessor); the block where they parted for the last time can split the join, so its
+   condition is named by [decides] (C07_lifted_split_is_named_by_decides); they left it by
+   different successors, so the condition had different values (control is deterministic);
+   and in single-assignment form the stores only grow, so it still has those values in the
+   stores with which the join is entered. *)
+Theorem C07_picks_decided_in_validated_loop_free_graphs :
+  forall (V : Type) (p : Z) (sem2 : infix_op -> Z -> Z -> Z) (sem1 : prefix_op -> Z -> Z)
+         (call_sem : ident -> list Z -> Z) (name_code : ident -> Z)
+         (c : cfg) (idom : list (option N)) (pth : V -> list nat) (s0 s : V -> cstore)
+         (infos : list binfo) (g : list Lift.block) (body : Lift.sk),
+  (forall rho, StronglySorted lt (pth rho)) ->
+  (forall rho i, In i (pth rho) -> (i < length (c_blocks c))%nat) ->
+  (forall rho, exists tl, pth rho = 0%nat :: tl) ->
+  (forall rho, cexec_path p sem2 sem1 call_sem name_code c (params_map (c_params c)) (s0 rho) (pth rho) = Some (s rho)) ->
+  NoDup (local_targets c (all_stmts (c_blocks c))) ->
+  (forall rho x, In x (local_targets c (all_stmts (c_blocks c))) -> s0 rho x = None) ->
+  infos_ok infos c = true ->
+  graph_consistent c = true -> idom_is_dominator_table c idom = true -> idom_shape c idom = true ->
+  dom_graph_of c = MirrorsDom.to_dom g -> Lift.lift body = Base.Ok g ->
+  picks_decided V p sem2 sem1 call_sem name_code c idom (params_map (c_params c)) pth s0.
+Proof. exact picks_decided_holds. Qed.
+Print Assumptions C07_picks_decided_in_validated_loop_free_graphs.
+
+(* LOOP-FREE GRAPHS, NO ASSUMPTION ABOUT THE FAMILY.  Every family of concrete runs from the
+   entry block of a validated, consistent, single-assignment graph with the lists of a
+   lifted skeleton - whatever way each valuation goes - is contained in one store reachable
+   by the lock-step relation ... *)
+Theorem C07_loop_free_runs_represented :
+  forall (V : Type) (p : Z) (sem2 : infix_op -> Z -> Z -> Z) (sem1 : prefix_op -> Z -> Z)
+         (call_sem : ident -> list Z -> Z) (name_code : ident -> Z)
+         (c : cfg) (idom : list (option N)) (infos : list binfo) (g : list Lift.block) (body : Lift.sk)
+         (S0 : fstore V) (pth : V -> list nat) (s0 s : V -> cstore) (reps : list V),
+  infos_ok infos c = true ->
+  graph_consistent c = true -> idom_is_dominator_table c idom = true -> idom_shape c idom = true ->
+  dom_graph_of c = MirrorsDom.to_dom g -> Lift.lift body = Base.Ok g ->
+  single_assignment c -> targets_start_undefined V c S0 ->
+  (forall rho, StronglySorted lt (pth rho)) ->
+  (forall rho i, In i (pth rho) -> (i < length (c_blocks c))%nat) ->
+  (forall rho, exists tl, pth rho = 0%nat :: tl) ->
+  (forall rho, exists r, In r reps /\ pth r = pth rho) ->
+  (forall rho, rel_store V rho (s0 rho) S0) ->
+  (forall rho, cexec_path p sem2 sem1 call_sem name_code c (params_map (c_params c)) (s0 rho) (pth rho) = Some (s rho)) ->
+  exists S, freachable V p sem2 sem1 call_sem name_code c idom S0 S /\ forall rho, sub_store V rho (s rho) S.
+Proof. exact loop_free_runs_represented. Qed.
+Print Assumptions C07_loop_free_runs_represented.
+
+(* ... and every claim of the graph is true of the function  valuation |-> concrete value *)
+Theorem C07_loop_free_runs_claims_true :
+  forall (V : Type) (line : V -> V -> Z -> V) (p : Z)
+         (sem2 : infix_op -> Z -> Z -> Z) (sem1 : prefix_op -> Z -> Z) (call_sem : ident -> list Z -> Z)
+         (name_code : ident -> Z),
+  (forall op, op_den p op (sem2 op)) -> (forall op, prefix_den p op (sem1 op)) ->
+  forall (c : cfg) (idom : list (option N)) (infos : list binfo) (g : list Lift.block) (body : Lift.sk)
+         (S0 : fstore V) (pth : V -> list nat) (s0 s : V -> cstore) (reps : list V),
+  djust_cfg c idom = true -> finit_ok V line p c S0 ->
+  infos_ok infos c = true ->
+  graph_consistent c = true -> idom_is_dominator_table c idom = true ->
+  dom_graph_of c = MirrorsDom.to_dom g -> Lift.lift body = Base.Ok g ->
+  single_assignment c -> targets_start_undefined V c S0 ->
+  (forall rho, StronglySorted lt (pth rho)) ->
+  (forall rho i, In i (pth rho) -> (i < length (c_blocks c))%nat) ->
+  (forall rho, exists tl, pth rho = 0%nat :: tl) ->
+  (forall rho, exists r, In r reps /\ pth r = pth rho) ->
+  (forall rho, rel_store V rho (s0 rho) S0) ->
+  (forall rho, cexec_path p sem2 sem1 call_sem name_code c (params_map (c_params c)) (s0 rho) (pth rho) = Some (s rho)) ->
+  forall e r (val : V -> cell),
+  djust_expr c e = true -> expr_deg e = Some r ->
+  (forall rho, cval p sem2 sem1 call_sem name_code (s rho) e = Some (val rho)) ->
+  forall i, SemDeg V line p (snd r) (fun rho => val rho i).
+Proof. exact loop_free_runs_claims_true. Qed.
+Print Assumptions C07_loop_free_runs_claims_true.
+
+(* THE SAME WITH DECIDABLE HYPOTHESES ABOUT THE GRAPH ONLY (all evaluable per graph:
+   DegJustify.djust_cfg, SsaCheck.infos_ok, DegGraph.deg_graph_ok = consistent + true table,
+   DegGraph.loop_free_ok = single assignment + every successor has a larger index, the
+   lists of the lifted skeleton).  Of the family it is only asked that the runs start at
+   the entry block in the initial family taken at their valuation, that they complete, and
+   that there are finitely many path classes. *)
+Theorem C07_loop_free_graph_claims_true :
+  forall (V : Type) (line : V -> V -> Z -> V) (p : Z)
+         (sem2 : infix_op -> Z -> Z -> Z) (sem1 : prefix_op -> Z -> Z) (call_sem : ident -> list Z -> Z)
+         (name_code : ident -> Z),
+  (forall op, op_den p op (sem2 op)) -> (forall op, prefix_den p op (sem1 op)) ->
+  forall (c : cfg) (idom : list (option N)) (infos : list binfo) (g : list Lift.block) (body : Lift.sk)
+         (S0 : fstore V) (pth : V -> list nat) (s0 s : V -> cstore) (reps : list V),
+  djust_cfg c idom = true -> infos_ok infos c = true ->
+  deg_graph_ok c idom = true -> loop_free_ok c = true ->
+  dom_graph_of c = MirrorsDom.to_dom g -> Lift.lift body = Base.Ok g ->
+  finit_ok V line p c S0 ->
+  (forall rho, exists tl, pth rho = 0%nat :: tl) ->
+  (forall rho, exists r, In r reps /\ pth r = pth rho) ->
+  (forall rho, rel_store V rho (s0 rho) S0) ->
+  (forall rho, cexec_path p sem2 sem1 call_sem name_code c (params_map (c_params c)) (s0 rho) (pth rho) = Some (s rho)) ->
+  forall e r (val : V -> cell),
+  djust_expr c e = true -> expr_deg e = Some r ->
+  (forall rho, cval p sem2 sem1 call_sem name_code (s rho) e = Some (val rho)) ->
+  forall i, SemDeg V line p (snd r) (fun rho => val rho i).
+Proof. exact loop_free_graph_claims_true. Qed.
+Print Assumptions C07_loop_free_graph_claims_true.
+
+(* END TO END, for the chain of the mirrors.  For a body lifted by Model.LiftFull.try_lift_impl,
+   converted by Model.Ssa.into_ssa and annotated by Model.Propagate.propagate, the hypothesis "the
+   graph has the lists of a lifted skeleton" is a theorem (C07_chain_split_is_named_by_decides'
+   first half); so for every graph c' with the BLOCKS of the chain's output (the mirror of
+   into_ssa leaves the declaration table empty; c' carries the implementation's table) that
+   passes the decidable checks - the validator, C14's version maps, consistent graph and true
+   table, single assignment and forward edges - every claim is true of the concrete values of
+   every family of runs from the entry block, whatever way the valuations go. *)
+Theorem C07_chain_loop_free_claims_true :
+  forall (V : Type) (line : V -> V -> Z -> V) (p : Z)
+         (sem2 : infix_op -> Z -> Z -> Z) (sem1 : prefix_op -> Z -> Z) (call_sem : ident -> list Z -> Z)
+         (name_code : ident -> Z),
+  (forall op, op_den p op (sem2 op)) -> (forall op, prefix_den p op (sem1 op)) ->
+  forall (key : meta -> nat) kind params pfile ploc body (r : LiftFull.lifted) frontier children (c1 : cfg)
+         (kv kd : nat) (q : Z) (idom : list (option N)) (c2 : cfg) (infos : list binfo)
+         (S0 : fstore V) (pth : V -> list nat) (s0 s : V -> cstore) (reps : list V),
+  LiftFull.try_lift_impl kind params pfile ploc body = Base.Ok r ->
+  SsaPre.phi_free (LiftFull.erase_cfg (LiftFull.l_cfg r)) = true ->
+  SsaPre.decls_ok (LiftFull.erase_cfg (LiftFull.l_cfg r)) = true ->
+  Ssa.into_ssa frontier children (LiftFull.erase_cfg (LiftFull.l_cfg r)) = Ssa.SOk c1 ->
+  propagate kv kd q idom c1 = Base.Ok c2 ->
+  forall c' : cfg, c_blocks c' = c_blocks c2 ->
+  djust_cfg c' idom = true -> infos_ok infos c' = true ->
+  deg_graph_ok c' idom = true -> loop_free_ok c' = true ->
+  finit_ok V line p c' S0 ->
+  (forall rho, exists tl, pth rho = 0%nat :: tl) ->
+  (forall rho, exists r0, In r0 reps /\ pth r0 = pth rho) ->
+  (forall rho, rel_store V rho (s0 rho) S0) ->
+  (forall rho, cexec_path p sem2 sem1 call_sem name_code c' (params_map (c_params c')) (s0 rho) (pth rho) = Some (s rho)) ->
+  forall e rg (val : V -> cell),
+  djust_expr c' e = true -> expr_deg e = Some rg ->
+  (forall rho, cval p sem2 sem1 call_sem name_code (s rho) e = Some (val rho)) ->
+  forall i, SemDeg V line p (snd rg) (fun rho => val rho i).
+Proof. exact CtlChainRuns.chain_loop_free_claims_true. Qed.
+Print Assumptions C07_chain_loop_free_claims_true.
+
+(* its hypotheses are satisfiable END TO END (Proofs.CtlChainRunsExample): the AST of
+     signal input a;  var x = 0;  if (a == 1) { x = 1; } else { x = 2; }  x = x + 4;
+   through the three mirrors, the annotated graph with the declaration table read off its
+   declaration statements, and the family of runs over the valuations rho of a that part at the
+   signal-dependent branch (rho = 1 mod 7: then-branch; otherwise: else-branch) *)
+Example C07_chain_runs_example :
+  LiftFull.try_lift_impl KTemplate [] (Some 0%N) (10%N, 12%N) CtlChainRunsExample.cs_body = Base.Ok CtlChainRunsExample.cs_r /\
+  SsaPre.phi_free CtlChainRunsExample.cs_c0 = true /\ SsaPre.decls_ok CtlChainRunsExample.cs_c0 = true /\
+  Ssa.into_ssa CtlChainExample.cc_frontier CtlChainExample.cc_children CtlChainRunsExample.cs_c0 = Ssa.SOk CtlChainRunsExample.cs_c1 /\
+  propagate 9 9 7 CtlChainExample.cc_idom CtlChainRunsExample.cs_c1 = Base.Ok CtlChainRunsExample.cs_c2 /\
+  c_blocks CtlChainRunsExample.cs_c = c_blocks CtlChainRunsExample.cs_c2 /\
+  djust_cfg CtlChainRunsExample.cs_c CtlChainExample.cc_idom = true /\
+  infos_ok CtlChainRunsExample.cs_infos CtlChainRunsExample.cs_c = true /\
+  deg_graph_ok CtlChainRunsExample.cs_c CtlChainExample.cc_idom = true /\ loop_free_ok CtlChainRunsExample.cs_c = true /\
+  (forall op, op_den 7 op (CtlChainRunsExample.cs_sem2 op)) /\ (forall op, prefix_den 7 op (CtlChainRunsExample.cs_sem1 op)) /\
+  finit_ok Z zline 7 CtlChainRunsExample.cs_c CtlChainRunsExample.cs_S0 /\
+  (forall rho, exists tl, CtlChainRunsExample.cs_pth rho = 0%nat :: tl) /\
+  (forall rho, exists r0, In r0 [1; 0] /\ CtlChainRunsExample.cs_pth r0 = CtlChainRunsExample.cs_pth rho) /\
+  (forall rho, rel_store Z rho (CtlChainRunsExample.cs_s0 rho) CtlChainRunsExample.cs_S0) /\
+  (forall rho, CtlChainRunsExample.cs_run rho = Some (CtlChainRunsExample.cs_s rho)).
+Proof. exact CtlChainRunsExample.chain_runs_example. Qed.
+
+(* A WEAKER VALIDATOR (third audit, "false alarms": the strict validator demands that a claimed
+   range EQUAL the table's, so a sound implementation that is more conservative would be called
+   unjustified).  Model.DegJustifyLe.djust_cfg_le only demands that the claimed UPPER END be at
+   least the upper end the tables give for the claimed ranges of the operands (NonQuadratic is
+   always accepted).  It accepts every graph the strict validator accepts, and the graph-level
+   theorem holds for it, for the same step relation. *)
+Theorem C07_strict_validator_implies_weaker :
+  forall c idom, djust_cfg c idom = true -> djust_cfg_le c idom = true.
+Proof. exact djust_cfg_implies_le. Qed.
+Print Assumptions C07_strict_validator_implies_weaker.
+
+Theorem C07_weaker_validator_degrees_true :
+  forall (V : Type) (line : V -> V -> Z -> V) (p : Z)
+         (sem2 : infix_op -> Z -> Z -> Z) (sem1 : prefix_op -> Z -> Z) (call_sem : ident -> list Z -> Z)
+         (name_code : ident -> Z),
+  (forall op, op_den p op (sem2 op)) -> (forall op, prefix_den p op (sem1 op)) ->
+  forall c idom, djust_cfg_le c idom = true ->
+  forall s0 s e F r,
+  finit_ok V line p c s0 -> freachable V p sem2 sem1 call_sem name_code c idom s0 s ->
+  djust_expr_le c e = true -> den V p sem2 sem1 call_sem name_code s e = Some F -> expr_deg e = Some r ->
+  forall i, SemDeg V line p (snd r) (F i).
+Proof. exact justified_degrees_true_le. Qed.
+Print Assumptions C07_weaker_validator_degrees_true.
 
 (* (4) WHAT "NO DENOTATION" MEANS.  From a total initial store (every name the steps cannot
    assign has a cell) an expression is undenotable in a reachable store only if it holds a
@@ -660,3 +849,38 @@ Proof.
     destruct (r1 mod 7 =? 1), (r2 mod 7 =? 1); try discriminate; congruence. }
   intros rho. unfold exd_s. destruct (exd_then rho); reflexivity.
 Qed.
+
+(* the graph hypotheses of C07_loop_free_runs_claims_true / C07_loop_free_graph_claims_true hold of the diamond (the family
+   hypotheses are those of C07_diverging_runs_example, with params_map [] = []): the version
+   maps C14's validator computes for it are accepted, and it has the lists of the lifted
+   skeleton of `if (c1) {s2} else {s3}; s4` *)
+Example C07_loop_free_example :
+  (exists infos, compute_infos (c_params exr_graph) exr_idom (c_blocks exr_graph) [] = Some infos /\
+                 infos_ok infos exr_graph = true) /\
+  ssa_check exr_graph exr_idom = true /\
+  graph_consistent exr_graph = true /\ idom_is_dominator_table exr_graph exr_idom = true /\
+  dom_graph_of exr_graph = MirrorsDom.to_dom CtlBridgeExample.exb_skel /\
+  Lift.lift CtlBridgeExample.exb_body = Base.Ok CtlBridgeExample.exb_skel /\
+  params_map (c_params exr_graph) = [] /\
+  deg_graph_ok exr_graph exr_idom = true /\ loop_free_ok exr_graph = true /\
+  (forall rho : Z, exists tl, exd_pth rho = 0%nat :: tl).
+Proof.
+  split; [eexists; split; vm_compute; reflexivity|].
+  split; [vm_compute; reflexivity|]. split; [vm_compute; reflexivity|]. split; [vm_compute; reflexivity|].
+  split; [vm_compute; reflexivity|]. split; [vm_compute; reflexivity|]. split; [reflexivity|].
+  split; [vm_compute; reflexivity|]. split; [vm_compute; reflexivity|].
+  intros rho. unfold exd_pth. destruct (exd_then rho); eauto.
+Qed.
+
+(* the weaker validator: reading t.0 = [1, 2] at the literal index 0 may be claimed constant
+   (both validators), or - more conservatively - constant..linear or constant..non-quadratic
+   (only the weaker one); reading it at the signal a may still not be claimed constant *)
+Example C07_weaker_validator_example :
+  djust_cfg (exa_graph (ENum 0 (exa_k exa_cc)) (Some (DConst, DLin))) [None] = false /\
+  djust_cfg_le (exa_graph (ENum 0 (exa_k exa_cc)) (Some (DConst, DLin))) [None] = true /\
+  djust_cfg_le (exa_graph (ENum 0 (exa_k exa_cc)) (Some (DConst, DNonQuad))) [None] = true /\
+  djust_cfg_le (exa_graph (ENum 0 (exa_k exa_cc)) exa_cc) [None] = true /\
+  djust_cfg_le (exa_graph (EVar exa_a (exa_k (Some (DLin, DLin)))) exa_cc) [None] = false /\
+  djust_cfg_le (exr_graph) exr_idom = true /\
+  djust_cfg_le (exc_graph (Some (DNonQuad, DNonQuad)) exa_cc) exr_idom = false.
+Proof. vm_compute. repeat split; reflexivity. Qed.
